@@ -112,8 +112,15 @@ func (s *Storer) newRunId(id string) error {
 	rdbAof := s.initDataSet()
 	if rdbAof != nil {
 		s.dataSetMux.Lock()
+		old := s.dataSet
 		s.dataSet = rdbAof
 		s.dataSetMux.Unlock()
+		// readers of the previous dataset are unknown to the new one: no later reset would close
+		// them and they look for the next segment in the previous directory. Close them here,
+		// after unlocking (see resetDataSet)
+		if old != nil {
+			old.Close()
+		}
 	}
 
 	return nil
